@@ -51,6 +51,11 @@ func genTravTree(r *rand.Rand, depth int) V {
 			st.Xs = append(st.Xs, V{T: 'N'})
 		case r.Intn(12) == 0:
 			st.Xs = append(st.Xs, V{T: 'Z', Form: "n"})
+		case r.Intn(10) == 0:
+			// found is found: a pointer to a zero-valued (or freed) instance, a typed nil pointer and a plain []any are values like
+			// any other at the END of a path, and nothing to descend into in the middle of one (whatever the index options say)
+			st.Xs = append(st.Xs, []V{{T: 'o', Ty: 22, ID: 1}, {T: 'o', Ty: 20, ID: 3}, {T: 'o', Ty: 5, ID: 1}, {T: 'o', Ty: 23, ID: 1},
+				{T: 'A', Xs: []V{{T: 's', S: "x"}, {T: 's', S: "y"}}}, {T: 'A'}}[r.Intn(6)])
 		default:
 			st.Xs = append(st.Xs, V{T: 'i', I: int64(nextLeaf)})
 		}
